@@ -39,8 +39,13 @@ def same_stats(a, b):
     return None
 
 
-def pair(tr_min, rep):
-    pass
+def nan_eq(a, b):
+    """equality of nested lists / tuples of numbers in which NaN equals NaN"""
+    if isinstance(a, (list, tuple)) and isinstance(b, (list, tuple)):
+        return len(a) == len(b) and all(nan_eq(x, y) for x, y in zip(a, b))
+    if isinstance(a, float) and isinstance(b, float) and a != a and b != b:
+        return True
+    return a == b
 
 
 def run(ctx, rep):
@@ -49,7 +54,8 @@ def run(ctx, rep):
         if not cfg["minimization"]:
             return
         # the dual run: maximise -f, target -v
-        dual = dict(cfg, minimization=False, scale=-cfg["scale"], offset=-cfg.get("offset", 0.0))
+        dual = dict(cfg, minimization=False, scale=-cfg["scale"], offset=-cfg.get("offset", 0.0),
+                    intobj=(-cfg["intobj"] if cfg.get("intobj") is not None else None))
         if cfg.get("optimal_value") is not None:
             dual["optimal_value"] = -cfg["optimal_value"]
         if "_uniset" in tr:
@@ -62,11 +68,11 @@ def run(ctx, rep):
                         len(tr["batches"]), len(tr2["batches"]), "C05_dual")
             return
         for i, (a, b) in enumerate(zip(tr["batches"], tr2["batches"])):
-            if a["ph"] != b["ph"] or a["fit"] != b["fit"]:
+            if a["ph"] != b["ph"] or not nan_eq(a["fit"], b["fit"]):
                 rep.problem("dual", f"generation {i}: the two runs evaluate different populations / normalised fitness", dict(where, generation=i),
                             "dual:population", True, None, None, "C05_dual")
                 return
-        if tr["final"]["rec"] != tr2["final"]["rec"] or tr["final"]["counter"] != tr2["final"]["counter"]:
+        if not nan_eq(tr["final"]["rec"], tr2["final"]["rec"]) or tr["final"]["counter"] != tr2["final"]["counter"]:
             rep.problem("dual", "the two runs report a different genotype / phenotype / normalised fitness", where, "dual:fittest", True,
                         tr["final"]["rec"][2], tr2["final"]["rec"][2], "C05_dual")
         d = same_stats(tr["stats"], tr2["stats"])
@@ -80,6 +86,10 @@ def run(ctx, rep):
                 if not ok:
                     rep.problem("dual", f"adaptation state {attr} differs between the two runs", where, "dual:adaptation", True, None, None, "C05_dual")
     _loop.run_all(ctx, rep, "C05", predicate, 24, 200, force=dict(minimization=True))
+    # objectives that are undefined (NaN) on part of the search space: the duality is about ALL objectives
+    # (implementation vs implementation only: the exact loop model has no NaN)
+    _loop.run_all(ctx, rep, "C05", predicate, 3, 12, model=False,
+                  force=dict(minimization=True, objective="nanstrip", opt_mode="none", scale=1.0, offset=0.0, buffer=False, g2p=False, intobj=None))
 
 
 def replay(ctx, rp):
